@@ -25,11 +25,11 @@ RULE = (
     "alternatives (and strings containing one). non-trivial = every pinned case; distinct = sha256(root, JSON)"
 )
 
-SHAPES_QUICK = ["min", "max"] + ["rand"] * 6 + [f"hetero{i}" for i in range(6)] * 2
-SHAPES_THOROUGH = ["min", "max"] + ["rand"] * 60 + [f"hetero{i}" for i in range(6)] * 8
-
-
-HETERO_PATTERNS = [("min", "max"), ("max", "min"), ("min", "rand", "max"), ("max", "rand", "min"), ("rand", "max", "min"), ("max", "max", "min")]
+HETERO_PATTERNS = [("min", "max"), ("max", "min"), ("min", "rand", "max"), ("max", "rand", "min"), ("rand", "max", "min"), ("max", "max", "min"),
+                   ("min", "max", "rand") * 12,            # long arrays: code that samples, batches or memoises over elements
+                   ("max",) * 17 + ("min",) + ("max",) * 14]
+SHAPES_QUICK = ["min", "max"] + ["rand"] * 6 + [f"hetero{i}" for i in range(len(HETERO_PATTERNS))] * 2
+SHAPES_THOROUGH = ["min", "max"] + ["rand"] * 60 + [f"hetero{i}" for i in range(len(HETERO_PATTERNS))] * 8
 
 
 def make_target(shape: str):
